@@ -261,3 +261,38 @@ Section Contracts.
     Qed.
   End WithContract.
 End Contracts.
+
+(* ---------- C08: the finiteness guard of the repaired set_params ---------- *)
+Section Guard.
+  Variables V Mx Cache W E St : Type.
+  Variable um : umodel V Mx St.
+  Variable solve0 : W -> E -> Mx -> Mx -> option Cache.
+  Variable finite : W -> Mx -> bool.   (* every entry of the weighted basis matrix is finite *)
+
+  (* the decomposition is attempted only on finite matrices *)
+  Definition guarded (w : W) (e : E) (phi yw : Mx) : option Cache :=
+    if finite w phi then solve0 w e phi yw else None.
+
+  Theorem nonfinite_is_absent (p : problem Mx Cache W E St) a st1 st2 phi :
+    um_set um (p_st p) a = (st1, true) -> um_eval um st1 = (st2, Some phi) ->
+    finite (p_w p) phi = false ->
+    p_cached (set_params um guarded p a) = None.
+  Proof.
+    intros Hs He Hf. pose proof (set_params_spec um guarded p a) as H.
+    rewrite Hs, He in H. destruct H as [_ ->]. unfold guarded. rewrite Hf. reflexivity.
+  Qed.
+
+  Theorem decomposed_only_if_finite (p : problem Mx Cache W E St) a c :
+    p_cached (set_params um guarded p a) = Some c ->
+    exists st1 st2 phi, um_set um (p_st p) a = (st1, true) /\ um_eval um st1 = (st2, Some phi) /\
+                        finite (p_w p) phi = true /\ solve0 (p_w p) (p_eps p) phi (p_Yw p) = Some c.
+  Proof.
+    intros Hc. pose proof (set_params_spec um guarded p a) as H.
+    destruct (um_set um (p_st p) a) as [st1 ok] eqn:Hs. destruct ok.
+    - destruct (um_eval um st1) as [st2 phi] eqn:He. destruct H as [_ H]. rewrite H in Hc.
+      destruct phi as [f|]; [|discriminate]. unfold guarded in Hc.
+      destruct (finite (p_w p) f) eqn:Hf; [|discriminate].
+      exists st1, st2, f. auto.
+    - destruct H as [_ H]. rewrite H in Hc. discriminate.
+  Qed.
+End Guard.
